@@ -141,6 +141,42 @@ def run(ctx):
                   if not vs else vs[0].msg, rl.file, vs[0].node.line if vs else rl.line,
                   path=vs[0].path if vs else None, config=config,
                   sample={'pin': p, 'edges': sorted(r.details.get(p, []))})
+        # ---- e  the pins belong to the caller's request: only the option setters and the context life-cycle may
+        #         write, free or hand over the pin fields
+        PIN_FIELDS = ('prep_digest', 'prep_hash_type', 'prep_hdr_size')
+        OWNERS = {'zck_set_soption': 'string option setter', 'zck_set_ioption': 'integer option setter',
+                  'zck_clear': 'context clean-up', 'zck_create': 'context creation', 'zck_free': 'context clean-up',
+                  'zck_init_adv_read': 'context initialisation', 'zck_init_read': 'context initialisation'}
+        from ..rules.common import assigned_fields
+        from ..program import all_exprs
+        from ..ir import calls_in
+        nw = 0
+        for fn in sorted(prog.lib_funcs(), key=lambda f: f.qname):
+            bad = []
+            for (l, r_, op, node) in assigned_fields(fn):
+                if strip(l).op in PIN_FIELDS:
+                    nw += 1
+                    if fn.name not in OWNERS:
+                        bad.append((node.line, 'writes %s' % show(node)[:50]))
+                # the pin's buffer handed to another field
+                if r_ is not None and strip(r_) is not None and strip(r_).k == 'mem' and strip(r_).op == 'prep_digest' \
+                        and strip(l).op != 'prep_digest':
+                    bad.append((node.line, 'hands the pinned digest buffer to %s' % show(l)[:40]))
+            for ex in all_exprs(fn):
+                for c in calls_in(ex):
+                    if callee_name(c) == 'free' and len(c.a) > 1 and strip(c.a[1]) is not None and \
+                            strip(c.a[1]).k == 'mem' and strip(c.a[1]).op == 'prep_digest':
+                        nw += 1
+                        if fn.name not in OWNERS:
+                            bad.append((c.line, 'frees the pinned digest'))
+            for line, what in bad:
+                ck.ob('C07-e', 'R7.pin-owner', fn.name, what.split()[0] + ':' + what.split()[-1][:30], False,
+                      '%s %s: a pin set by the caller must stay in force for every lead read on the context; only the '
+                      'option setters and the context life-cycle functions may change it' % (fn.name, what),
+                      fn.file, line, config=config)
+        ck.ob('C07-e', 'R7.pin-owner', '*', 'owners', True,
+              '%d write/free site(s) of the pin fields, all in %s' % (nw, ', '.join(sorted(OWNERS))), config=config)
+        ck.min_instances('write/free sites of the pin fields', nw, 4)
         # ---- b
         so = prog.need_func('zck_set_soption')
 
@@ -328,6 +364,16 @@ CLAIM = {
 }
 
 MUTANTS = [
+    {'id': 'm07o', 'desc': 'read_lead takes the pinned digest buffer over (seeded c07r3)', 'file': 'src/lib/header.c',
+     'old': """    memcpy(zck->header_digest, header + length, zck->hash_type.digest_size);
+    length += zck->hash_type.digest_size;""",
+     'new': """    memcpy(zck->header_digest, header + length, zck->hash_type.digest_size);
+    if(zck->prep_digest) {
+        free(zck->header_digest);
+        zck->header_digest = zck->prep_digest;
+        zck->prep_digest = NULL;
+    }
+    length += zck->hash_type.digest_size;""", 'expect': 'R7.pin-owner read_lead'},
     {'id': 'm06', 'desc': 'read_lead: digest pin check removed', 'file': 'src/lib/header.c',
      'old': """    if(zck->prep_digest &&
        memcmp(zck->prep_digest, header + length, zck->hash_type.digest_size) != 0) {""",
